@@ -130,6 +130,7 @@ impl Poly1305 {
             let tmp = self.buffer;
             self.block(&tmp);
         }
+        self.finalized = true;
 
         // fully carry h
         let mut h0 = self.h[0];
